@@ -119,7 +119,7 @@ LoseStep(s, LM, skip) ==
       pe |-> s.e, pbg |-> s.bg, pld |-> s.ld, pLM |-> LM]
 
 StateRange == st.ph = 2 => InStateRange(st.e) /\ InStateRange(st.l1) /\ InStateRange(st.l2) /\ InStateRange(st.bg) /\ st.ld >= 0 /\ st.ld <= 10000
-               /\ InStateRange(st.pe)
+               /\ st.pe >= StateLo - (QOne + QHalf) /\ st.pe <= StateHi     \* what the recovery rule hands to the coarse decoder
 BackgroundSlow == (st.ph = 2 /\ ~st.lastlost /\ st.n > 0) =>
    /\ st.bg <= st.pbg + MaxBackgroundIncrease(st.pld, st.pLM) /\ st.bg <= st.e
    /\ MaxBackgroundIncrease(st.pld, st.pLM) <= 160 * Milli
